@@ -177,7 +177,7 @@ func c13Run(c c13Case) []*core.Violation {
 				}
 				var err error
 				if useDial {
-					err = cl.DialAndSendWithContext(context.Background(), ms...)
+					err = cl.DialAndSend(ms...)
 				} else {
 					err = cl.Send(ms...)
 				}
